@@ -4,6 +4,7 @@ import TrackVerif.LT.ProtocolCount
 import TrackVerif.LT.Schema
 import TrackVerif.LT.Spec
 import TrackVerif.LT.Tree
+import TrackVerif.LT.RT
 import TrackVerif.Generated.LT
 /-
   Line-protocol side of the LapTimer area.
@@ -236,7 +237,13 @@ def handleRt (toks impl : List String) : String :=
             if m != chars then "CORR clause=lt.encode_model"
             else if (match specEnc with | .ok e => e != m | _ => true) then "CORR clause=lt.gen_schema"
             else match mDec with
-              | .ok d => if dumpV d == decS then s!"OK nt=1 dom={dflag}" else s!"CORR clause=lt.decode_model model={(dumpV d).take 300}"
+              | .ok d =>
+                if dumpV d != decS then s!"CORR clause=lt.decode_model model={(dumpV d).take 300}"
+                else
+                  -- the leaf-wise round trip of the structure theorem must give the same value
+                  match rtOf Spec.schema 64 false (.named "DB") db with
+                  | some q => if dumpV q == decS then s!"OK nt=1 dom={dflag} rt=1" else s!"CORR clause=lt.rt_model rt={(dumpV q).take 300}"
+                  | none => s!"OK nt=1 dom={dflag} rt=0"
               | .err _ => if decS == "err" then s!"OK nt=1 dom={dflag}" else "CORR clause=lt.decode_model model=err"
               | .unmodelled => "SKIP reason=decode-unmodelled"
               | .panic _ => "BAD"
